@@ -73,6 +73,7 @@ def parseOp? : List String → Option Op
 structure DSt where
   st : St := {}
   live : Bool := false
+  progs : List (Nat × List Stmt) := []     -- calls in progress (interleaving model)
 
 def reply (r : Res) : String :=
   let o := if r.outs.isEmpty then "-" else ";".intercalate (r.outs.map showOut)
@@ -90,6 +91,23 @@ def dstep (d : DSt) (ws : List String) : DSt × String :=
       | some c =>
         let vs := if c.variables.isEmpty then "-" else ",".intercalate (c.variables.map showVar)
         (d, s!"ok period={c.period} vars={vs} defaults={showNatList c.defaults}")
+      | none => (d, "bad-op")
+    | none => (d, "bad-op")
+  | ["slbegin", s, which] =>
+    match s.toNat? with
+    | some s =>
+      let i : ISt := { st := d.st, progs := d.progs }
+      let a? := if which == "connect" then some (IOp.callConnect s) else if which == "disconnect" then some (IOp.callDisconnect s) else none
+      match a?.bind (istep i) with
+      | some (i', o, e) => ({ d with st := i'.st, progs := i'.progs }, reply { st := i'.st, outs := o, err := e } ++ s!" left={if (i'.prog s).isEmpty then 0 else 1}")
+      | none => (d, "bad-op")
+    | none => (d, "bad-op")
+  | ["slrun", s] =>
+    match s.toNat? with
+    | some s =>
+      let i : ISt := { st := d.st, progs := d.progs }
+      match istep i (.run s) with
+      | some (i', o, e) => ({ d with st := i'.st, progs := i'.progs }, reply { st := i'.st, outs := o, err := e } ++ s!" left={if (i'.prog s).isEmpty then 0 else 1}")
       | none => (d, "bad-op")
     | none => (d, "bad-op")
   | _ =>
